@@ -16,24 +16,56 @@ Proof.
   apply existsb_exists. exists a. split; [exact Ha|]. unfold addr_matches. rewrite <- Hn, N.eqb_refl. reflexivity.
 Qed.
 
-(* whenever the workload generator answers delta-aware (usedDelta), a push event or an on-demand
-   request never removes an address that exists *)
-Theorem wds_removed_sound_partial idx ty q v x :
-  g_used (wds_generate idx ty q v) = true ->
+(* the workload generator answers delta-aware whenever it answers at all *)
+Lemma wds_answer_used idx ty q v :
+  g_res (wds_generate idx ty q v) <> None \/ g_del (wds_generate idx ty q v) <> None ->
+  g_used (wds_generate idx ty q v) = true.
+Proof.
+  unfold wds_generate. destruct v as [wn wild].
+  destruct (negb (w_isreq q) && is_nil (w_updated q)); [cbn; intros [H|H]; congruence|].
+  destruct wild; cbn [negb].
+  - destruct (address_information idx (if w_isreq q then [] else w_updated q)). reflexivity.
+  - destruct (is_nil _).
+    + destruct (w_isreq q); cbn; [reflexivity|intros [H|H]; congruence].
+    + destruct (address_information idx _). reflexivity.
+Qed.
+
+(* a push event or an on-demand request never tells the generator's caller to remove an address that exists *)
+Lemma wds_del_sound idx ty q v x :
   (snd v = false \/ w_isreq q = false) ->         (* on-demand, or a push event *)
   In x (oget (g_del (wds_generate idx ty q v))) -> ~ exists_addr idx x.
 Proof.
   unfold wds_generate. destruct v as [wn wild]. cbn [snd].
-  destruct (negb (w_isreq q) && is_nil (w_updated q)); [cbn; discriminate|].
+  destruct (negb (w_isreq q) && is_nil (w_updated q)); [cbn; intros _ []|].
   destruct wild; cbn [negb].
-  - intros _ [H|H]; [discriminate|]. rewrite H.
+  - intros [H|H]; [discriminate|]. rewrite H.
     destruct (address_information idx (w_updated q)) as [addrs removed] eqn:E. cbn [g_del oget].
     intros Hx. apply (address_information_removed idx (w_updated q) x). rewrite E. exact Hx.
   - set (addresses := norm ((if w_isreq q then dl_sub (w_delta q) else inter (w_updated q) wn) ++ w_addl q)).
-    destruct (is_nil addresses); [destruct (w_isreq q); cbn; discriminate|].
+    destruct (is_nil addresses); [destruct (w_isreq q); cbn; intros _ []|].
     destruct (address_information idx addresses) as [addrs removed] eqn:E. cbn [g_del g_used oget].
-    intros _ _ Hx. apply In_diff in Hx. destruct Hx as [Hx _].
+    intros _ Hx. apply In_diff in Hx. destruct Hx as [Hx _].
     apply (address_information_removed idx addresses x). rewrite E. exact Hx.
+Qed.
+
+(* removed_sound for the workload types, at the level of the response pushDeltaXds sends: on an
+   on-demand stream (requests and push events) and for push events on a wildcard stream, no address
+   that exists is ever removed - whatever the session state, the ResourceDelta, the index *)
+Theorem wds_removed_sound st t d idx q n v r x :
+  given st t d = Some v ->
+  (snd v = false \/ w_isreq q = false) ->
+  resp_of (push_delta_xds st t d (wds_generate idx t q) n) = Some r ->
+  In x (rs_removed r) -> ~ exists_addr idx x.
+Proof.
+  intros Hv Hk Hr Hx.
+  assert (Hu : g_used (wds_generate idx t q v) = true).
+  { apply wds_answer_used. revert Hr. unfold given in Hv. unfold push_delta_xds, resp_of.
+    destruct (st t) as [w|]; [|discriminate]. injection Hv as Hv. rewrite Hv.
+    destruct (g_res (wds_generate idx t q v)); [left; discriminate|].
+    destruct (g_del (wds_generate idx t q v)); [right; discriminate|]. cbn. discriminate. }
+  destruct (push_delta_removed st t d (wds_generate idx t q) n v r Hv Hu Hr) as [_ Hrem].
+  rewrite Hrem in Hx. destruct (never_remove t); [destruct Hx|].
+  apply (wds_del_sound idx t q v x Hk Hx).
 Qed.
 
 (* a wildcard request (connect / reconnect) removes exactly the reported names that do not exist *)
@@ -48,7 +80,7 @@ Proof.
   - intros H. apply in_map_iff in H. destruct H as [a [Hn Ha]]. apply B. exists a. auto.
 Qed.
 
-(* ------------------------------------------------------------------ the on-demand finding *)
+(* ------------------------------------------------------------------ the on-demand exchange of the former finding *)
 
 (* one on-demand AddressType stream: index {w1 (name 11, version 1, alias 21)}; the client subscribes
    [11; 12], then unsubscribes [12].  Generators as in the harness: the workload generator model. *)
@@ -63,21 +95,17 @@ Definition k_run : list event * watched :=
   let '(_, st1) := process_delta_request empty_watched (mkDReq ADDR [11; 12] [] [] 0 None) [] k_gens 1 2 in
   process_delta_request st1 (mkDReq ADDR [] [12] [] 0 None) [] k_gens 3 4.
 
-Lemma ondemand_removes_existing :
-  exists v r, fst k_run = [(ADDR, v, Some r)] /\ In 11 (rs_removed r) /\ exists_addr k_idx 11 /\
-              In 11 (record (snd k_run) ADDR).
-Proof.
-  eexists. eexists. split; [vm_compute; reflexivity|]. cbn [rs_removed].
-  split; [left; reflexivity|]. split.
-  - exists (mkAddr 11 1 [21] true). split; [left; reflexivity|reflexivity].
-  - vm_compute. left. reflexivity.
-Qed.
+(* the exchange that used to remove 11 (before /repo fix 121b6aa): the unsubscribe is answered with an
+   empty delta and nothing is removed *)
+Lemma ondemand_regression :
+  exists v, fst k_run = [(ADDR, v, Some (mkResp [] []))] /\ In 11 (record (snd k_run) ADDR).
+Proof. eexists. split; [vm_compute; reflexivity|]. vm_compute. left. reflexivity. Qed.
 
-(* ------------------------------------------------------------------ H_delta is needed (the CDS port-removal finding) *)
+(* ------------------------------------------------------------------ the H_delta premise is necessary *)
 
 (* clusters 6 and 7 (two clusters of one service port) and 4 exist; the port goes away and 4 changes;
-   the delta-aware answer updates 4 but removes only 6 - as BuildDeltaClusters does when a port has a
-   subset cluster next to the plain one *)
+   a delta-aware answer that updates 4 but removes only 6 (what BuildDeltaClusters did before /repo fix
+   9e904ce when a port had a subset cluster next to the plain one) *)
 Definition hd_g0 : world := fun t => match t with CDS => [(4, 1); (6, 1); (7, 1)] | _ => [] end.
 Definition hd_g1 : world := fun t => match t with CDS => [(4, 2)] | _ => [] end.
 Definition hd_ops : list hop :=
